@@ -281,7 +281,8 @@ pub fn p_expr(e: &Expr) -> String {
         if f.is_async { "async " } else { "" },
         p_tparams(&f.tparams),
         p_params(&f.params),
-        f.ret.as_ref().map(|t| format!(": {}", p_ty(t))).unwrap_or_default()
+        // (a conditional or function type as an arrow's return type needs parentheses)
+        f.ret.as_ref().map(|t| if matches!(t, Ty::Cond(..) | Ty::Fn(..)) { format!(": ({})", p_ty(t)) } else { format!(": {}", p_ty(t)) }).unwrap_or_default()
       );
       match (&f.expr_body, &f.body) {
         (Some(e), _) => format!("{} => ({})", head, p_expr(e)),
@@ -719,6 +720,8 @@ pub struct Gen<'a> {
   adversarial: bool,
   ctr: usize,
   await_ok: bool,
+  /// restricted member / constructor generation for the transform-model stream
+  units_mode: bool,
   /// references of `export default <expr>` per module
   extra_roots: Vec<(usize, BTreeSet<usize>)>,
 }
@@ -1297,16 +1300,16 @@ impl<'a> Gen<'a> {
   }
 
   fn member(&mut self, k: usize, in_abstract: bool) -> Member {
-    let r = self.rng.below(100);
+    let r = if self.units_mode { self.rng.below(45) } else { self.rng.below(100) };
     let acc: &'static str = match self.rng.below(10) {
-      0 | 1 => "private",
+      0 | 1 if !self.units_mode => "private",
       2 => "protected",
       3 => "public",
       _ => "",
     };
     let public = acc != "private";
     let is_static = self.rng.chance(15);
-    let key = match self.rng.below(20) {
+    let key = match if self.units_mode { 19 } else { self.rng.below(20) } {
       0 => Key::Str(format!("s{}", k)),
       1 => Key::Num(k as u32),
       2 => {
@@ -1328,7 +1331,7 @@ impl<'a> Gen<'a> {
     match r {
       0..=34 => {
         // method (+ overloads)
-        let overloaded = self.rng.chance(15);
+        let overloaded = !self.units_mode && self.rng.chance(15);
         let sigs = if overloaded { self.overload_sigs(1, public) } else { vec![] };
         let is_abstract = in_abstract && !overloaded && self.rng.chance(20);
         let mut f = self.fn_like(1, public && !overloaded, false, false);
@@ -1428,7 +1431,7 @@ impl<'a> Gen<'a> {
       _ => "",
     };
     let public = acc != "private";
-    let overloaded = self.rng.chance(12);
+    let overloaded = !self.units_mode && self.rng.chance(12);
     let mut sigs = vec![];
     if overloaded {
       for sg in self.overload_sigs(1, public) {
@@ -1651,6 +1654,7 @@ pub fn gen_package(rng: &mut Rng, adversarial: bool) -> Package {
     adversarial,
     ctr: 0,
     await_ok: false,
+    units_mode: false,
     extra_roots: vec![],
   };
   // 1. declaration headers
@@ -1923,4 +1927,83 @@ pub fn gen_package(rng: &mut Rng, adversarial: bool) -> Package {
   let features = g.feats.clone().into_iter().collect();
   let nodes = g.nodes.clone();
   Package { modules, exports, nodes, intent, features }
+}
+
+/// A one-module package for the transform-model stream: every declaration is exported, so every
+/// function-like is public: functions, `const` arrows / function expressions, and classes with a
+/// constructor (parameter properties, any accessibility), methods and accessors (not TS-private,
+/// identifier keys, no overloads), plus a few exported interfaces / aliases for the annotations to
+/// mention.  A quarter of the opportunities produce slow types.
+pub fn gen_fn_package(rng: &mut Rng) -> (String, Vec<(String, u64)>) {
+  let mut g = Gen {
+    rng,
+    nodes: vec![],
+    n_modules: 1,
+    cur_module: 0,
+    cur_refs: BTreeSet::new(),
+    cur_maybe: BTreeSet::new(),
+    maybe_mode: false,
+    recording: true,
+    imports: vec![BTreeMap::new(); 1],
+    feats: BTreeMap::new(),
+    expect_diag: false,
+    unpredictable: false,
+    slow_pct: 0,
+    adversarial: false,
+    ctr: 0,
+    await_ok: false,
+    units_mode: true,
+    extra_roots: vec![],
+  };
+  g.slow_pct = *g.rng.pick(&[0, 10, 25, 25, 40]);
+  let mut items = vec![];
+  let n_types = g.rng.range(1, 3);
+  for k in 0..n_types {
+    let kind = if g.rng.chance(50) { DKind::Interface } else { DKind::Alias };
+    g.nodes.push(Node { module: 0, name: format!("{}{}", kind_prefix(kind), k), kind, export_kw: true, export_default: false, list_exports: vec![], api_refs: BTreeSet::new(), maybe_refs: BTreeSet::new() });
+  }
+  for idx in 0..n_types {
+    let d = g.decl(idx, 0);
+    items.push(Item::Decl(1, d));
+  }
+  let n = g.rng.range(3, 9);
+  for k in 0..n {
+    let name = format!("u{}", k);
+    let d = match g.rng.below(10) {
+      0..=3 => {
+        let mut f = g.fn_like(0, true, false, false);
+        if f.body.is_none() {
+          f.body = Some(vec![]);
+        }
+        Decl::Fn { name, sigs: vec![], f, declare: false }
+      }
+      4..=6 => {
+        let e = if g.rng.chance(65) {
+          Expr::Arrow(Box::new(g.fn_like(0, true, true, false)))
+        } else {
+          let mut f = g.fn_like(0, true, false, false);
+          if f.body.is_none() {
+            f.body = Some(vec![]);
+          }
+          Expr::FnExpr(Box::new(f))
+        };
+        Decl::Var { kind: "const", decls: vec![(Pat::Ident(name), None, Some(e))], declare: false }
+      }
+      _ => {
+        let mut members = vec![];
+        if g.rng.chance(70) {
+          members.push(g.ctor(false));
+        }
+        let nm = g.rng.range(1, 4);
+        for j in 0..nm {
+          members.push(g.member(j, false));
+        }
+        Decl::Class { name, tparams: vec![], extends: None, implements: vec![], members, decorator: false, is_abstract: false, declare: false }
+      }
+    };
+    items.push(Item::Decl(1, d));
+  }
+  g.feats.insert("model-stream-decls".into(), n as u64);
+  let text = p_module(&Module { path: "mod.ts".into(), items });
+  (text, g.feats.into_iter().collect())
 }
